@@ -1289,6 +1289,13 @@ let unfold_case (input : string) (obs0 : string) : verdict =
        | Some d when starts_with impl "R ok" && d <> "0,0,0,0,0,0,0,0,0" ->
            oracle := ("C17", "unfolder stacks not idle after a complete document: " ^ d) :: !oracle
        | _ -> ());
+      (* C13, first sentence, directly against the L0 definition: an interface{} target holds the stream's value *)
+      (match t, stream_tree evs with
+       | TIface, Some tr when wf_tree tr && impl <> "PANIC" && impl <> "HANG" ->
+           let want = "R ok V " ^ gvalue_tok t (generic tr) in
+           if impl <> want then
+             oracle := ("C13", "interface{} target does not hold the stream's value: want " ^ want) :: !oracle
+       | _ -> ());
       let model = if risky_float evs && has_int_kind t && impl <> "PANIC" && impl <> "HANG" then impl else model in
       { model = (match depth with Some d -> model ^ " D " ^ d | None -> model); oracle = !oracle }
   | _ -> failwith "unfold: bad input"
